@@ -1,6 +1,417 @@
 package props
 
-import "verif/harness/internal/core"
+import (
+	"bytes"
+	"encoding/json"
+	"fmt"
+	"os"
+	"os/exec"
+	"path/filepath"
+	"regexp"
+	"sort"
+	"strconv"
+	"strings"
+	"sync"
+	"time"
 
-// raceC14 is replaced below once the race pass exists.
-func raceC14(p *core.PostCtx) { p.Counters["race.pairs"] = 1 }
+	enc "github.com/DataDog/sketches-go/ddsketch/encoding"
+	"github.com/DataDog/sketches-go/ddsketch/store"
+
+	"verif/harness/internal/core"
+	"verif/harness/internal/gen"
+	"verif/harness/internal/mon"
+	"verif/harness/internal/rng"
+)
+
+// The race-detector aliasing pass of C14. Two independent objects (an object and
+// its Copy) are hammered by two goroutines with no synchronisation between them:
+// any word that both can reach and one of them writes is reported by the race
+// detector even before the sharing becomes observable through the API.
+
+type raceStep struct {
+	op   *skOp // mutation, or nil for a read
+	read int
+	q    float64
+}
+
+func genRaceSteps(c *core.Ctx, r *rng.Rng, m *gen.Map, spec gen.StoreSpec, exact bool, pool []float64, n int) []raceStep {
+	h := &histGen{c: c, r: r, m: m, spec: spec, exact: exact, pool: pool, anySpec: true, sameTarget: true}
+	h.weights = [opNumKinds]int{40, 20, 6, 4, 2, 4, 3, 0, 2, 0}
+	var steps []raceStep
+	for _, op := range h.gen(n) {
+		op := op
+		steps = append(steps, raceStep{op: &op})
+		for j := r.Intn(3); j > 0; j-- {
+			steps = append(steps, raceStep{read: r.Intn(12), q: r.Float()})
+		}
+	}
+	return steps
+}
+
+func raceRead(s mon.Sketch, code int, q float64) {
+	k := s.I()
+	switch code {
+	case 0:
+		k.GetValueAtQuantile(q)
+	case 1:
+		k.GetValuesAtQuantiles([]float64{q, 0, 1})
+	case 2:
+		k.GetCount()
+		k.IsEmpty()
+		k.GetMinValue()
+		k.GetMaxValue()
+	case 3:
+		k.GetSum()
+	case 4:
+		n := 3
+		k.ForEach(func(v, w float64) bool { n--; return n < 0 })
+	case 5:
+		for range k.GetPositiveValueStore().Bins() {
+		}
+		for range k.GetNegativeValueStore().Bins() {
+		}
+	case 6:
+		k.GetPositiveValueStore().KeyAtRank(q * 10)
+		k.GetNegativeValueStore().MinIndex()
+	case 7:
+		s.P.ToProto()
+	case 8:
+		var buf bytes.Buffer
+		s.P.EncodeProto(&buf)
+	case 9:
+		var b []byte
+		k.Encode(&b, false)
+	case 10:
+		cp := s.Copy()
+		cp.I().Clear()
+	default:
+		var b []byte
+		k.GetPositiveValueStore().Encode(&b, enc.FlagTypePositiveStore)
+	}
+}
+
+func runSteps(s *mon.Sketch, spec gen.StoreSpec, m *gen.Map, steps []raceStep) {
+	for _, st := range steps {
+		if st.op != nil {
+			rawApply(s, &spec, &m, *st.op)
+		} else {
+			raceRead(*s, st.read, st.q)
+		}
+	}
+}
+
+// RacePair runs pair i. It returns a description of a final-state mismatch, or "".
+func RacePair(seed uint64, i int) (mismatch string, steps int) {
+	r := rng.New(rng.Hash(seed, rng.HashString("C14race"), uint64(i)))
+	c := core.NewDetachedCtx(r) // only used by generators for counters; never touched from the goroutines
+	if i%4 == 3 {
+		return raceStorePair(c, r)
+	}
+	m := gen.RandMap(r, true)
+	spec := gen.StoreSpec{Kind: i % 5}
+	if spec.Collapsing() {
+		spec.N = gen.RandN(r)
+	}
+	exact := r.P(0.4)
+	vs := genValues(c, r, m, gen.StoreSpec{Kind: gen.SDense}, r.Range(4, 40), []string{"mixed", "mixed+zeros", "pos"}[r.Intn(3)], randSigmaIdx(r, 100))
+	h0 := genRaceSteps(c, r, m, spec, exact, vs.vals, r.Range(1, 40))
+	sa := genRaceSteps(c, r.Fork(), m, spec, exact, vs.vals, r.Range(5, 40))
+	sb := genRaceSteps(c, r.Fork(), m, spec, exact, vs.vals, r.Range(5, 40))
+
+	S := mon.NewSketch(exact, m.M, spec)
+	runSteps(&S, spec, m, h0)
+	cp := S.Copy()
+
+	var wg sync.WaitGroup
+	start := make(chan struct{})
+	wg.Add(2)
+	go func() { defer wg.Done(); <-start; runSteps(&S, spec, m, sa) }()
+	go func() { defer wg.Done(); <-start; runSteps(&cp, spec, m, sb) }()
+	close(start)
+	wg.Wait()
+
+	// sequential twins
+	TA := mon.NewSketch(exact, m.M, spec)
+	runSteps(&TA, spec, m, h0)
+	runSteps(&TA, spec, m, sa)
+	TB := mon.NewSketch(exact, m.M, spec)
+	runSteps(&TB, spec, m, h0)
+	runSteps(&TB, spec, m, sb)
+	if d := mon.Observe(TA, nil).Diff(mon.Observe(S, nil)); d != "" {
+		return "original differs from its sequential twin: " + d, len(h0) + len(sa) + len(sb)
+	}
+	if d := mon.Observe(TB, nil).Diff(mon.Observe(cp, nil)); d != "" {
+		return "copy differs from its sequential twin: " + d, len(h0) + len(sa) + len(sb)
+	}
+	return "", len(h0) + len(sa) + len(sb)
+}
+
+func raceStorePair(c *core.Ctx, r *rng.Rng) (string, int) {
+	spec := gen.RandAnyStore(r)
+	type sop struct {
+		kind  int
+		index int
+		w     float64
+	}
+	centre := r.Range(-5000, 5000)
+	genOps := func(r *rng.Rng, n int) []sop {
+		var ops []sop
+		for i := 0; i < n; i++ {
+			ops = append(ops, sop{kind: r.Pick(8, 4, 1, 1, 6), index: centre + r.Range(-150, 150), w: float64(r.Range(1, 9)) / 4})
+		}
+		return ops
+	}
+	run := func(st store.Store, ops []sop) {
+		for _, o := range ops {
+			switch o.kind {
+			case 0:
+				st.Add(o.index)
+			case 1:
+				st.AddWithCount(o.index, o.w)
+			case 2:
+				st.Reweight(2)
+			case 3:
+				var b []byte
+				st.Encode(&b, enc.FlagTypePositiveStore)
+			default:
+				switch o.index % 6 {
+				case 0:
+					st.KeyAtRank(o.w)
+				case 1:
+					st.ForEach(func(int, float64) bool { return false })
+				case 2:
+					for range st.Bins() {
+					}
+				case 3:
+					st.ToProto()
+				case 4:
+					st.MinIndex()
+					st.MaxIndex()
+					st.TotalCount()
+				default:
+					x := st.Copy()
+					x.Clear()
+				}
+			}
+		}
+	}
+	h0, oa, ob := genOps(r, r.Range(1, 120)), genOps(r.Fork(), r.Range(10, 120)), genOps(r.Fork(), r.Range(10, 120))
+	S := spec.New()
+	run(S, h0)
+	cp := S.Copy()
+	var wg sync.WaitGroup
+	start := make(chan struct{})
+	wg.Add(2)
+	go func() { defer wg.Done(); <-start; run(S, oa) }()
+	go func() { defer wg.Done(); <-start; run(cp, ob) }()
+	close(start)
+	wg.Wait()
+	TA, TB := spec.New(), spec.New()
+	run(TA, h0)
+	run(TA, oa)
+	run(TB, h0)
+	run(TB, ob)
+	cmp := func(a, b store.Store) bool {
+		x, _, _ := mon.ForEachBins(a)
+		y, _, _ := mon.ForEachBins(b)
+		if len(x) != len(y) {
+			return false
+		}
+		for i := range x {
+			if x[i] != y[i] {
+				return false
+			}
+		}
+		return true
+	}
+	if !cmp(TA, S) {
+		return "store differs from its sequential twin (" + spec.String() + ")", len(h0) + len(oa) + len(ob)
+	}
+	if !cmp(TB, cp) {
+		return "store copy differs from its sequential twin (" + spec.String() + ")", len(h0) + len(oa) + len(ob)
+	}
+	return "", len(h0) + len(oa) + len(ob)
+}
+
+// RaceMain is the entry point of the race-instrumented binary: vh-race race <seed> <from> <to>.
+func RaceMain(seed uint64, from, to int) int {
+	type res struct {
+		Pairs      int      `json:"pairs"`
+		Steps      int      `json:"steps"`
+		Mismatches []string `json:"mismatches"`
+	}
+	var out res
+	for i := from; i < to; i++ {
+		mm, n := RacePair(seed, i)
+		out.Pairs++
+		out.Steps += n
+		if mm != "" && len(out.Mismatches) < 5 {
+			out.Mismatches = append(out.Mismatches, fmt.Sprintf("pair %d: %s", i, mm))
+		}
+	}
+	b, _ := json.Marshal(out)
+	fmt.Println(string(b))
+	return 0
+}
+
+var frameRe = regexp.MustCompile(`^\s+([\w./*()\-]+)\(`)
+
+// raceC14 runs the race pass from the parent of the C14 check.
+func raceC14(p *core.PostCtx) {
+	exe, _ := os.Executable()
+	bin := filepath.Join(filepath.Dir(exe), "vh-race")
+	if _, err := os.Stat(bin); err != nil {
+		p.Incon = append(p.Incon, "race-instrumented binary "+bin+" is missing (build it with ./check build)")
+		return
+	}
+	pairs := 480
+	if p.Tier == "thorough" {
+		pairs = 12000
+	}
+	nproc := 12
+	per := (pairs + nproc - 1) / nproc
+	type result struct {
+		Pairs      int      `json:"pairs"`
+		Steps      int      `json:"steps"`
+		Mismatches []string `json:"mismatches"`
+	}
+	results := make([]result, nproc)
+	errs := make([]error, nproc)
+	var wg sync.WaitGroup
+	start := time.Now()
+	for k := 0; k < nproc; k++ {
+		wg.Add(1)
+		go func(k int) {
+			defer wg.Done()
+			from, to := k*per, (k+1)*per
+			if to > pairs {
+				to = pairs
+			}
+			if from >= to {
+				return
+			}
+			cmd := exec.Command(bin, "race", strconv.FormatUint(p.Seed, 10), strconv.Itoa(from), strconv.Itoa(to))
+			cmd.Env = append(os.Environ(), "GORACE=halt_on_error=0 log_path="+filepath.Join(p.OutDir, fmt.Sprintf("race_%d", k)))
+			var stdout bytes.Buffer
+			cmd.Stdout = &stdout
+			errf, _ := os.Create(filepath.Join(p.OutDir, fmt.Sprintf("race_%d.stderr", k)))
+			cmd.Stderr = errf
+			done := make(chan error, 1)
+			if err := cmd.Start(); err != nil {
+				errs[k] = err
+				return
+			}
+			go func() { done <- cmd.Wait() }()
+			select {
+			case err := <-done:
+				// the race runtime exits with 66 when it reported races; that is handled through the logs
+				if err != nil && !strings.Contains(err.Error(), "exit status 66") {
+					errs[k] = err
+				}
+			case <-time.After(2 * time.Hour):
+				cmd.Process.Kill()
+				<-done
+				errs[k] = fmt.Errorf("watchdog")
+			}
+			errf.Close()
+			line := strings.TrimSpace(stdout.String())
+			if i := strings.LastIndex(line, "\n"); i >= 0 {
+				line = line[i+1:]
+			}
+			json.Unmarshal([]byte(line), &results[k])
+		}(k)
+	}
+	wg.Wait()
+	total := result{}
+	for k := range results {
+		if errs[k] != nil {
+			p.Incon = append(p.Incon, fmt.Sprintf("race pass process %d failed: %v (see %s/race_%d.stderr)", k, errs[k], p.OutDir, k))
+		}
+		total.Pairs += results[k].Pairs
+		total.Steps += results[k].Steps
+		total.Mismatches = append(total.Mismatches, results[k].Mismatches...)
+	}
+	// scan the race logs
+	files, _ := filepath.Glob(filepath.Join(p.OutDir, "race_*"))
+	reports := 0
+	distinct := map[string]int{}
+	firstFile := ""
+	firstText := ""
+	for _, f := range files {
+		if strings.HasSuffix(f, ".stderr") {
+			continue
+		}
+		b, err := os.ReadFile(f)
+		if err != nil {
+			continue
+		}
+		blocks := strings.Split(string(b), "WARNING: DATA RACE")
+		for _, blk := range blocks[1:] {
+			reports++
+			// key: the library frames of both stacks, line numbers stripped
+			var fr []string
+			for _, l := range strings.Split(blk, "\n") {
+				if m := frameRe.FindStringSubmatch(l); m != nil && strings.Contains(m[1], "sketches-go") {
+					fr = append(fr, m[1])
+				}
+			}
+			if len(fr) > 4 {
+				fr = fr[:4]
+			}
+			key := strings.Join(fr, " <- ")
+			distinct[key]++
+			if firstFile == "" {
+				firstFile = f
+				firstText = blk
+				if len(firstText) > 3000 {
+					firstText = firstText[:3000]
+				}
+			}
+		}
+	}
+	p.Counters["race.pairs"] += int64(total.Pairs)
+	p.Counters["race.steps"] += int64(total.Steps)
+	p.Counters["race.reports"] += int64(reports)
+	keys := make([]string, 0, len(distinct))
+	for k := range distinct {
+		keys = append(keys, k)
+	}
+	sort.Strings(keys)
+	p.Extra["race_pass"] = map[string]interface{}{
+		"pairs_of_object_and_copy_hammered_concurrently": total.Pairs,
+		"operations_executed":                            total.Steps,
+		"data_race_reports":                              reports,
+		"distinct_reports_by_library_frames":             keys,
+		"final_state_mismatches":                         len(total.Mismatches),
+		"wall_s":                                         time.Since(start).Seconds(),
+	}
+	if reports > 0 {
+		w := filepath.Join(p.OutDir, "witness_data_race.json")
+		wj := map[string]interface{}{
+			"property": "C14", "seed": p.Seed, "tier": p.Tier, "index": -1, "class": "race:shared_mutable_state",
+			"message":       fmt.Sprintf("%d DATA RACE reports (%d distinct by library frames) between an object and its Copy", reports, len(distinct)),
+			"distinct":      keys,
+			"first_report":  firstText,
+			"race_log":      firstFile,
+			"how_to_replay": fmt.Sprintf("GORACE='halt_on_error=0' %s race %d 0 %d", bin, p.Seed, pairs),
+		}
+		b, _ := json.MarshalIndent(wj, "", " ")
+		os.WriteFile(w, b, 0o644)
+		p.Viol = append(p.Viol, core.PostViolation{Class: "race:shared_mutable_state", Msg: fmt.Sprintf("%d DATA RACE reports between independent objects (object and its Copy); first: %s", reports, firstLineOf(keys)), Replay: w})
+	}
+	if len(total.Mismatches) > 0 {
+		w := filepath.Join(p.OutDir, "witness_race_mismatch.json")
+		wj := map[string]interface{}{"property": "C14", "seed": p.Seed, "tier": p.Tier, "index": -1, "class": "race:final_state_mismatch", "message": total.Mismatches[0], "all": total.Mismatches,
+			"how_to_replay": fmt.Sprintf("%s race %d 0 %d", bin, p.Seed, pairs)}
+		b, _ := json.MarshalIndent(wj, "", " ")
+		os.WriteFile(w, b, 0o644)
+		p.Viol = append(p.Viol, core.PostViolation{Class: "race:final_state_mismatch", Msg: total.Mismatches[0], Replay: w})
+	}
+}
+
+func firstLineOf(keys []string) string {
+	if len(keys) == 0 {
+		return ""
+	}
+	return keys[0]
+}
